@@ -395,3 +395,211 @@ Example handle_dead_ex :
      PErr ENoTx; PErr ENoTx; PErr ENoTx; PErr ENoTx; PErr ENoTx; PErr ENoTx; PBegun 2; PValue (Some [2]);
      PErr ENoTx; PErr EROTx; POk; PErr ENoTx; PErr ENoTx].
 Proof. vm_compute. reflexivity. Qed.
+
+(* ------------------------------------------------------------------------------------ *)
+(* Part D: the engine under a service program; what a scan returns                         *)
+(* ------------------------------------------------------------------------------------ *)
+
+Definition bop_of (o : bwop) : bop := (bw_key o, if bw_type o =? 0 then Some (bw_val o) else None).
+
+(* the engine program one service step amounts to *)
+Definition eops (L : limits) (ss : sstate) (o : sop) : list op :=
+  match o with
+  | SFlush => [OFlush]
+  | SReq q =>
+    if negb (fits L q) then [] else
+    match q with
+    | QPut k v _ => if valid_key L k && valid_val L v then [OPut k v] else []
+    | QDelete k _ => if valid_key L k then [ODel k] else []
+    | QBatch ops _ =>
+        match ops with
+        | [] => []
+        | _ => if max_batch L <? N.of_nat (length ops) then [] else if any_open ss then [] else
+               match batch_ops L ops [] with inl b => [OCommit b] | inr _ => [] end
+        end
+    | QCommit h => match lookup_h ss h with
+                   | Some (_, t) => if is_rw t then [OCommit (t_buf t)] else []
+                   | None => []
+                   end
+    | QCompact force => if any_open ss then [] else [OCommit (if force then [(marker_key, Some marker_val)] else [])]
+    | _ => []
+    end
+  end.
+
+Lemma sstep_eng : forall L ss o, s_eng (fst (sstep L ss o)) = fold_left step (eops L ss o) (s_eng ss).
+Proof.
+  intros L ss [q|]; cbn [sstep eops]; [|reflexivity].
+  unfold service_step. destruct (fits L q); cbn [negb]; [|reflexivity].
+  destruct (handler L ss q) as [ss' r] eqn:E. cbn [fst].
+  assert (E' : ss' = fst (handler L ss q)) by (rewrite E; reflexivity). subst ss'. clear E r.
+  destruct q as [k|k v s|k s|ops s|o|ro|h|h|h k|h k v|h k|h o| |f|]; cbn [handler].
+  - destruct (valid_key L k); reflexivity.
+  - destruct (valid_key L k); cbn [negb andb]; [|reflexivity]. destruct (valid_val L v); reflexivity.
+  - destruct (valid_key L k); reflexivity.
+  - destruct ops as [|o0 r]; [reflexivity|]. destruct (max_batch L <? _); [reflexivity|].
+    destruct (any_open ss); [reflexivity|]. destruct (batch_ops L (o0 :: r) []); reflexivity.
+  - destruct (rw_open ss); reflexivity.
+  - destruct (if ro then rw_open ss else any_open ss); reflexivity.
+  - destruct (lookup_h ss h) as [[id t]|]; [|reflexivity]. unfold is_rw. destruct (t_mode t); reflexivity.
+  - destruct (lookup_h ss h) as [[id t]|]; reflexivity.
+  - destruct (lookup_h ss h) as [[id t]|]; [|reflexivity]. destruct (valid_key L k); reflexivity.
+  - destruct (lookup_h ss h) as [[id t]|]; [|reflexivity]. destruct (is_rw t); cbn [negb]; [|reflexivity].
+    destruct (valid_key L k); cbn [negb]; [|reflexivity]. destruct (valid_val L v); reflexivity.
+  - destruct (lookup_h ss h) as [[id t]|]; [|reflexivity]. destruct (is_rw t); cbn [negb]; [|reflexivity].
+    destruct (valid_key L k); reflexivity.
+  - destruct (lookup_h ss h) as [[id t]|]; reflexivity.
+  - destruct (rw_open ss); reflexivity.
+  - destruct (any_open ss); reflexivity.
+  - destruct (s_info ss); reflexivity.
+Qed.
+
+Fixpoint etrace (L : limits) (ss : sstate) (prog : list sop) : list op :=
+  match prog with
+  | [] => []
+  | o :: r => eops L ss o ++ etrace L (fst (sstep L ss o)) r
+  end.
+
+Lemma srun_eng : forall L prog ss,
+  s_eng (fst (srun L ss prog)) = fold_left step (etrace L ss prog) (s_eng ss).
+Proof.
+  intros L prog. induction prog as [|o r IH]; intros ss; [reflexivity|].
+  rewrite srun_cons, IH. cbn [etrace]. rewrite fold_left_app, sstep_eng. reflexivity.
+Qed.
+
+Corollary srun_eng_init : forall L c p prog,
+  s_eng (fst (srun L (sinit c p) prog)) = run c (etrace L (sinit c p) prog).
+Proof. intros. rewrite srun_eng. reflexivity. Qed.
+
+Definition no_reopen (o : op) : Prop := o <> OReopen.
+
+Lemma eops_no_reopen : forall L ss o, Forall no_reopen (eops L ss o).
+Proof.
+  intros L ss [q|]; cbn [eops]; [|repeat constructor; discriminate].
+  destruct (negb (fits L q)); [constructor|].
+  destruct q as [k|k v s|k s|ops s|o|ro|h|h|h k|h k v|h k|h o| |f|];
+    repeat match goal with
+           | |- Forall _ (if ?b then _ else _) => destruct b
+           | |- Forall _ (match ?x with _ => _ end) => destruct x
+           end;
+    repeat constructor; discriminate.
+Qed.
+
+Lemma etrace_no_reopen : forall L prog ss, Forall no_reopen (etrace L ss prog).
+Proof.
+  intros L prog. induction prog as [|o r IH]; intros ss; [constructor|]. cbn [etrace].
+  apply Forall_app. split; [apply eops_no_reopen|apply IH].
+Qed.
+
+Lemma lost_log_step_keep : forall s o, no_reopen o -> lost_log (step s o) = lost_log s.
+Proof.
+  intros s o H. destruct o as [k v|k|ops|ops|ops| | |k]; cbn [step]; try reflexivity.
+  - rewrite put_as_batch. apply lost_log_apply_batch.
+  - rewrite del_as_batch. apply lost_log_apply_batch.
+  - apply lost_log_apply_batch.
+  - rewrite tx_commit_as_batch. apply lost_log_apply_batch.
+  - destruct (flush_spec s) as (_ & _ & _ & _ & _ & _ & G7 & _). exact G7.
+  - exfalso. apply H. reflexivity.
+Qed.
+
+Lemma lost_log_run_keep : forall ops s, Forall no_reopen ops -> lost_log (fold_left step ops s) = lost_log s.
+Proof.
+  induction ops as [|o r IH]; intros s H; [reflexivity|]. inversion H; subst. cbn [fold_left].
+  rewrite IH by assumption. apply lost_log_step_keep. assumption.
+Qed.
+
+(* the engine of a service never sets its log aside: that only happens at a reopen *)
+Lemma service_log_kept : forall L c p prog, lost_log (run c (etrace L (sinit c p) prog)) = false.
+Proof. intros. unfold run. rewrite lost_log_run_keep by apply etrace_no_reopen. reflexivity. Qed.
+
+(* ---- which keys a scan request selects ---- *)
+
+(* a prefix and/or a suffix filter the whole key space (start_key / end_key are not looked at);
+   without them the range [start, end) applies, an empty bound meaning none *)
+Definition scan_sel (o : scanopts) : option bytes * option bytes * (bytes -> bool) :=
+  match so_prefix o, so_suffix o with
+  | [], [] => (bound (so_start o), bound (so_end o), fun _ => true)
+  | p, q => (None, None, fun k => has_prefix p k && has_suffix q k)
+  end.
+
+Definition spec_rows (h : list wop) (buf : list bop) (o : scanopts) : list (bytes * bytes) :=
+  let '(lo, hi, sel) := scan_sel o in
+  spec_scan_limit (overlay h buf) lo hi sel (lim_of (so_limit o)).
+
+Lemma spec_scan_limit_ext : forall h lo hi sel sel' limit,
+  (forall k, sel k = sel' k) -> spec_scan_limit h lo hi sel limit = spec_scan_limit h lo hi sel' limit.
+Proof.
+  intros h lo hi sel sel' limit E. unfold spec_scan_limit, spec_scan.
+  rewrite (filter_ext (fun k => in_range lo hi k && sel k) (fun k => in_range lo hi k && sel' k))
+    by (intros k; rewrite E; reflexivity).
+  reflexivity.
+Qed.
+
+Lemma has_suffix_nil : forall k, has_suffix [] k = true.
+Proof. intros k. unfold has_suffix. cbn [rev]. destruct (rev k); reflexivity. Qed.
+
+Lemma has_prefix_nil : forall k, has_prefix [] k = true.
+Proof. intros k. destruct k; reflexivity. Qed.
+
+(* C19_scan_semantics: for every combination of prefix, suffix, start, end and limit, a Scan (buf
+   = []) or TxScan (buf = the handle's buffered operations) over an engine that ran the program
+   ops returns the live keys of the selected set — ascending, each once, with the latest value,
+   the transaction's own operations applied on top —, cut to the first `limit` LIVE keys when
+   limit > 0 (a limit <= 0 does not limit) *)
+Theorem scan_semantics : forall c ops buf o, lost_log (run c ops) = false ->
+  scan_rows (run c ops) buf o = spec_rows (acked (init c) ops) buf o.
+Proof.
+  intros c ops buf o Hl. unfold scan_rows, spec_rows, scan_sel.
+  destruct (so_prefix o) as [|p0 p] eqn:Ep; destruct (so_suffix o) as [|q0 q] eqn:Eq.
+  - destruct (so_start o) as [|a0 a] eqn:Ea; destruct (so_end o) as [|e0 e] eqn:Ee.
+    + cbn [bound]. apply tx_scan_full. exact Hl.
+    + apply tx_scan_range. exact Hl.
+    + apply tx_scan_range. exact Hl.
+    + apply tx_scan_range. exact Hl.
+  - rewrite tx_scan_suffix by exact Hl. apply spec_scan_limit_ext. intros k. rewrite has_prefix_nil. reflexivity.
+  - rewrite tx_scan_prefix by exact Hl. apply spec_scan_limit_ext. intros k. rewrite has_suffix_nil, andb_true_r. reflexivity.
+  - apply tx_scan_prefix_suffix. exact Hl.
+Qed.
+
+(* the same for the state a service program leads to *)
+Corollary scan_semantics_service : forall L c p prog buf o,
+  let ss := fst (srun L (sinit c p) prog) in
+  scan_rows (s_eng ss) buf o = spec_rows (acked (init c) (etrace L (sinit c p) prog)) buf o.
+Proof.
+  intros L c p prog buf o ss. unfold ss. rewrite srun_eng_init.
+  apply scan_semantics. apply service_log_kept.
+Qed.
+
+(* what differs from composing the embedded iterators: a range next to a prefix or a suffix is
+   dropped by the service (documented for the prefix: "when provided, start_key/end_key are
+   ignored"), whereas an embedded user can filter a range iterator and gets the intersection
+   (ScanProofs.eng_scan_filtered). Witness: keys a, ab, b; prefix "a", range [ab, b) *)
+Example prefix_ignores_range :
+  let ss := fst (srun L0 ss0 (map SReq [QPut [97] [1] false; QPut [97;98] [2] false; QPut [98] [3] false])) in
+  snd (service_step L0 ss (QScan (mkScan [97] [] [97;98] [98] 0))) = PRows [([97], [1]); ([97;98], [2])] /\
+  scan (filtered_iter (eng_range_it (Some [97;98]) (Some [98])) (prefix_filter [97])) 0 (eng_iter (s_eng ss))
+    = [([97;98], [2])].
+Proof. vm_compute. split; reflexivity. Qed.
+
+(* non-vacuity: data in an SSTable, an immutable and the active memtable, a deleted key, an empty
+   value, a transaction overlay; every option kind, limits around the number of live keys *)
+Example scan_semantics_ex :
+  let prog := [SReq (QPut [97] [1] false); SReq (QPut [97;98] [] false); SReq (QPut [98;97] [3] false); SFlush;
+               SReq (QPut [98] [4] false); SReq (QDelete [97] true); SReq (QPut [99;97;98] [5] false);
+               SReq (QBegin false); SReq (QTxPut (HId 1) [97;97] [6]); SReq (QTxDelete (HId 1) [98])] in
+  let ss := fst (srun L0 (sinit (mkCfg 40 10) None) prog) in
+  map (fun o => snd (service_step L0 ss (QTxScan (HId 1) o)))
+      [mkScan [] [] [] [] 0; mkScan [97] [] [] [] 0; mkScan [] [97;98] [] [] 0; mkScan [97] [98] [] [] 0;
+       mkScan [] [] [97;98] [99] 0; mkScan [] [] [] [98] 0; mkScan [] [] [98] [] 0; mkScan [] [] [98] [97] 0;
+       mkScan [] [] [] [] 2; mkScan [] [] [] [] (-3); mkScan [97] [] [122] [122] 1]
+  = [PRows [([97;97],[6]); ([97;98],[]); ([98;97],[3]); ([99;97;98],[5])];
+     PRows [([97;97],[6]); ([97;98],[])];
+     PRows [([97;98],[]); ([99;97;98],[5])];
+     PRows [([97;98],[])];
+     PRows [([97;98],[]); ([98;97],[3])];
+     PRows [([97;97],[6]); ([97;98],[])];
+     PRows [([98;97],[3]); ([99;97;98],[5])];
+     PRows [];
+     PRows [([97;97],[6]); ([97;98],[])];
+     PRows [([97;97],[6]); ([97;98],[]); ([98;97],[3]); ([99;97;98],[5])];
+     PRows [([97;97],[6])]].
+Proof. vm_compute. reflexivity. Qed.
